@@ -48,6 +48,20 @@ func VH_C12_named() {
 	}
 	vx.Assert(got == want, "C12: router.URLPath substitutes the pairs and includes the optional segment only when asked")
 	vx.Assert(r.URLPath("combo", "id", name) == "/c/"+name, "C12: ComboRoute.Name names the route")
+	// routes without bind parameters: static, and static with an optional last segment
+	r.Get("/s/t", func() {}).Name("static")
+	r.Get("/webapi/?users", func() {}).Name("optstatic")
+	r.Get("/a/b/?c", func() {}).Name("optstatic2")
+	vx.Assert(r.URLPath("static") == "/s/t" && r.URLPath("static", "x", name) == "/s/t", "C12: a route without bind parameters is its own path")
+	var op []string
+	if opt {
+		op = []string{"withOptional", "true"}
+	}
+	w1, w2 := "/webapi", "/a/b"
+	if opt {
+		w1, w2 = "/webapi/users", "/a/b/c"
+	}
+	vx.Assert(r.URLPath("optstatic", op...) == w1 && r.URLPath("optstatic2", op...) == w2, "C12: router.URLPath includes the optional segment only when asked (never the `?` marker)")
 	vx.Assert(r.URLPath("user", "name") == "/u/{name}", "C12: a trailing key without a value leaves the bind visible")
 	vx.Assert(vPanics(func() { r.URLPath("nope") }), "C12: an unknown route name panics")
 	vx.Assert(vPanics(func() { r.Get("/e", func() {}).Name("") }), "C12: an empty route name panics")
